@@ -32,3 +32,28 @@ func VerifHarness_C02_TFIDF() {
 	}
 	verifReach("compared")
 }
+
+// searching one model twice: the query-side maps (term counts, query vector) and whichever
+// vector the dot product walks are iterated in every order
+func VerifHarness_C02_TFIDFSearch() {
+	cmds := []Command{
+		{Command: "aa bb bb", Description: "cc cc cc aa", Keywords: nil},
+		{Command: "dd", Description: "dd ee", Keywords: nil},
+		{Command: "ff", Description: "gg", Keywords: nil},
+	}
+	// queries with as many / more distinct vocabulary terms than the first document
+	q := []string{"aa bb cc", "aa aa bb cc cc cc ee", "aa bb cc ee", "bb cc dd ee"}[verifIntRange("query", 0, 3)]
+	s := NewTFIDFSearcher(cmds)
+	r1 := s.Search(q, 5)
+	verifMapOrder(3)
+	r2 := s.Search(q, 5)
+	verifMapOrder(1)
+	verifAssert(len(r1) == len(r2), "C02: TF-IDF search returns the same number of results on repeated calls")
+	if len(r1) == len(r2) {
+		for k := range r1 {
+			verifAssert(r1[k].CommandIndex == r2[k].CommandIndex, "C02: TF-IDF ranks the same commands in the same order on repeated calls")
+			verifAssert(c02Same(r1[k].Similarity, r2[k].Similarity), "C02: TF-IDF similarities are bit-identical on repeated calls")
+		}
+	}
+	verifReach("compared")
+}
